@@ -37,6 +37,10 @@ package builder
 //@   props C09
 //@   at call Put#1 assert only-cacheable-successful-results-are-cached:
 //@             !request.Action.DoNotCache && ufb("statusok", response.Status) && response.Result.ExitCode == 0
+//@   at call Put#1 ghostset storefailed[nil] = ite(r0 != nil, 1, 0)
+//@   at call CASPutProto#1 ghostset storefailed[nil] = ite(r1 != nil, 1, 0)
+//@   ensures a-failed-write-of-the-result-is-reported-in-the-response: storefailed(nil) == 1 ==> !ufb("statusok", r0.Status)
+//@ ghost map storefailed(ref) int zero
 
 // If flushing storage fails, the response carries an error and no longer
 // advertises output digests.
@@ -144,7 +148,7 @@ package builder
 // idle invoker i (see pkg/cleaner). ghost removed(d, name) / closedDirs(d):
 // build directory protocol calls.
 
-//@ ghost map dirclosed(ref) int zero
+//@ ghost map dirclosed(ref) int zero stable
 
 //@ stub (pkg/builder.BuildDirectory).Close
 //@   modifies dirclosed[arg0]
@@ -268,3 +272,20 @@ package builder
 //@   props C08
 //@   ensures one-minute-past-the-expected-synchronization:
 //@             bc.schedulerMayThinkExecutingUntil != nil && *bc.schedulerMayThinkExecutingUntil == bc.nextSynchronizationAt + 60000000000
+
+// ---------------------------------------------------------------------------
+// The local executor's own sequence (C10, C11, C12): the parent directories of
+// the declared outputs exist before the command runs; the command runs under
+// exactly the action's timeout; whenever the command was started, whatever it
+// left behind is collected (also when the runner reports an error or the
+// command timed out); the build directory obtained is closed on every path.
+//@ ghost map execsteps(int) int zero
+//@ func (*localBuildExecutor).Execute
+//@   props C10 C11 C12
+//@   at call CreateParentDirectories#1 ghostset execsteps[3] = 1
+//@   at call Run#1 assert output-parent-directories-exist-before-the-command-runs: execsteps(3) == 1
+//@   at call Run#1 ghostset execsteps[1] = 1
+//@   at call UploadOutputs#1 ghostset execsteps[2] = 1
+//@   at call NewContextWithTimeout#1 assert the-command-runs-under-the-timeout-of-the-action: arg2 == uf("asduration", action.Timeout)
+//@   ensures outputs-are-collected-whenever-the-command-was-started: execsteps(1) == 1 ==> execsteps(2) == 1
+//@   ensures the-build-directory-is-closed-on-every-path: buildDirectory != nil ==> dirclosed(buildDirectory) >= 1
